@@ -433,6 +433,33 @@ def run(check, mirror, tier):
     _c03.evaluation_job(check, mirror, rb, crate_me, jobs, U)
     run_parallel(check, jobs)
 
+    # ---------------------------------------------------------------- F: calls of user-defined functions touch no process-wide state
+    # (the obligations C01 decides functionally - positional and named call of a function definition - executed with every atomic operation
+    # as an event: a counter or flag shared by all evaluations makes one call's result depend on what other threads are doing)
+    from checks import C01_ops as _ops
+    check.bounds.append("F: positional and named call of a user-defined function (0..3 parameters / arguments); any atomic read-modify-write or load on the way is a violation candidate")
+
+    def m_atomic_event(ex, st, callee, args, dest_ty):
+        yield Outcome("panic", st, msg="calling a user-defined function reads or writes process-wide state (%s): the result of one evaluation can depend on the others running at the same moment" % callee)
+    DEEP = ['{f: function(n) if n <= 0 then 0 else 1 + f(n - 1), r: f(180)}.r', '{g: function(n) if n <= 0 then 0 else 2 + g(n - 1), r: g(170)}.r', '{h: function(a, b) a + b, r: h(1, 2)}.r']
+
+    def replay_deep(i, rb):
+        out = stress(rb, DEEP)
+        return out.startswith("MISMATCH") or out.startswith("PANIC"), "8 threads evaluating %s for 3 s: %s" % (DEEP, out[:200])
+    _orig_decide = _ops.decide
+
+    def _decide_footprint(c, crate, oid, setup, post, replay, rb_, **kw):
+        kw["models"] = [(R(r"^(std::sync::atomic::)?Atomic(\w+|::<\w+>)::(store|swap|load|fetch_\w+|compare_exchange\w*)$"), m_atomic_event)] + list(kw.get("models") or [])
+        kw.pop("known_predicates", None)
+        return _orig_decide(c, crate, "footprint/" + oid, setup, post, replay_deep, rb_, **kw)
+    _ops.decide = _decide_footprint
+    try:
+        jobs = []
+        _ops.jobs_for(check, mirror, rb, crate_e, None, U, jobs, tier, {}, select={"function_positional_job", "function_named_job"})
+        run_parallel(check, jobs)
+    finally:
+        _ops.decide = _orig_decide
+
     # ---------------------------------------------------------------- B + C: the decision evaluation closure and the schedule query
     from checks import C20_locks
     C20_locks.run_locks(check, mirror, rb, tier, deadlock_query, stress)
